@@ -74,11 +74,14 @@ CLAIMED = {
         "DESIGN.md section 5 C09",
     ),
     "C13": (
-        "Coq proof (nested induction over AHB trees) about a hand model of the validation recursion using mapping tables regenerated from source + correspondence on random AHB trees",
+        "Coq proof (nested induction over AHB trees) about a hand model of the validation recursion using mapping tables regenerated from source, lifted to every schedule of the gathers by a refinement theorem (task trees -> sequential model) + correspondence on random AHB trees",
         "Props/C13.v: a successful run is a document-order traversal reporting each node once and nothing below a forbidden node (Visit); each segment-level status is its own status "
         "(documented mapping) combined with the parent's; table facts (below optional nothing required, below required own status kept, FILLED/EMPTY suffix, UNKNOWN under MUSS/prefix aborts, "
-        "the mapping never hits an unbound local) over map_rvv/combine_rvv regenerated from validation.py. For every tree, every evaluation of node expressions, both flags.",
-        "Trusted: Coq kernel, translator (Gen_valmaps, validated on the whole finite domain every run), hand model of validate_* (validated by correspondence). asyncio.gather is modelled as in-order execution here (schedules: C12/C15).",
+        "the mapping never hits an unbound local) over map_rvv/combine_rvv regenerated from validation.py. For every tree, every evaluation of node expressions, both flags. "
+        "C13_every_schedule_yields_the_sequential_report: the validation recursion written as task trees (Model/ValidateAsync.v: every asyncio.gather a Par, parsing/evaluating a node's expression arbitrary suspending programs) returns under EVERY "
+        "schedule the report of the sequential model, so the statements above (and C14/C16/C17) hold for all interleavings; every schedule terminates.",
+        "Trusted: Coq kernel, translator (Gen_valmaps, validated on the whole finite domain every run), hand model of validate_* (validated by correspondence; oracle: documented mapping on every indicator spelling x outcome x flag, positional reading of "
+        "the report incl. repeated discriminators). The task-tree model of asyncio.gather / contextvars is that of C12 (modelled, tied by the C12/C15 correspondences); when several tasks raise, the leftmost exception is taken (I-C12).",
         "DESIGN.md section 5 C13",
     ),
     "C14": (
@@ -103,12 +106,14 @@ CLAIMED = {
         "DESIGN.md section 5 C17",
     ),
     "C07": (
-        "Coq proof: invariant of the token-level expression builder by induction over expressions, linked to the parser theorems of C01 + correspondence (string vs render, end-to-end part evaluation) and truth-table oracle",
+        "Coq proof: invariant of the token-level expression builder by induction over expressions, refinement of the string-level builder (f-strings, strip, regex substitution) to it, linked to the parser theorems of C01 + correspondence (builder calls, string vs render, end-to-end part evaluation) and truth-table oracle",
         "Props/C07.v: for every in-domain valid expression and assignment the reported expression is absent iff the direct reading is empty, otherwise it is a builder-made token expression denoting a tree with the "
         "same Boolean value under every truth assignment and the same keys as the reading (C07_meaning); only FC keys of the source occur; the built forest has a derivation in the documented precedence grammar "
-        "(C07_wellformed) and every tree the parser's resolution admits for it has the value of the reading (C07_value_via_parser); C07_text: the reported STRING is accepted by the parser model and parses, modulo runs, to the tree denoting the reading.",
-        "Trusted: as C04 and C01. That the implementation's string builder writes `render` of the token-level builder is established by correspondence (character-by-character string comparison on every run), not by a theorem. "
-        "Interpretation S1 (DESIGN.md section 7).",
+        "(C07_wellformed) and every tree the parser's resolution admits for it has the value of the reading (C07_value_via_parser); C07_text: the reported STRING is accepted by the parser model and parses, modulo runs, to the tree denoting the reading. "
+        "C07_string_builder_connect / C07_reported_string_is_rendering: the STRING-level model of FormatConstraintExpressionBuilder (Model/FcString.v: the f-strings of __init__/_connect, str.strip, re.sub of the single-key bracket pattern "
+        "with \\d = the regenerated Unicode Nd table) computes the rendering of the token-level builder, for every expression whose keys are digit strings (all the lexer produces).",
+        "Trusted: as C04 and C01. The string-level builder model is tied to expression_builder.py by its own correspondence on single builder calls (renderings and arbitrary strings, all white-space kinds, digits of other scripts) and on the two "
+        "primitives (pattern.sub, str.strip) on every run. Interpretation S1 (DESIGN.md section 7).",
         "DESIGN.md section 5 C07",
     ),
     "C10": (
@@ -140,7 +145,9 @@ CLAIMED = {
     "C15": (
         "Coq corollary of schedule independence + context isolation for the validate_segment skeleton (nested trees) + refutation witness for the 'set in parent' variant + correspondence/oracle with yielding evaluators",
         "Props/C15.v: for every schedule the result at each free-text element equals validating that element alone with its own text (also inside nested groups with arbitrary sibling tasks); the variant that sets the "
-        "ContextVar in the parent before gathering is refuted by a computed witness. Implementation: 2-5 elements with different inputs, FC evaluators yield before reading the ContextVar, all yield vectors.",
+        "ContextVar in the parent before gathering is refuted by a computed witness. C15_every_schedule_yields_the_sequential_report / C15_free_text_evaluated_with_own_input: for the whole validation recursion (groups, segments, "
+        "value pools, free texts; Model/ValidateAsync.v) every schedule yields the sequential model's rows, and a free-text element's expression is evaluated with the ContextVar holding its own input. "
+        "Implementation: 2-5 elements with different inputs (also repeated / missing discriminators, matched by position), FC evaluators yield before reading the ContextVar, all yield vectors.",
         "Partial: as C12.",
         "DESIGN.md section 5 C15",
     ),
